@@ -122,7 +122,15 @@ impl Cache {
         if count < check_point {
             let cap = cap - count;
             for ref proc in self.store.load(cap, rt)? {
-                if !self.procs.contains_key(proc.id()) {
+                // a process that is evicted but still alive is not restored from the store
+                let alive = self
+                    .live
+                    .lock()
+                    .unwrap()
+                    .get(proc.id())
+                    .map(|p| p.strong_count() > 0)
+                    .unwrap_or(false);
+                if !self.procs.contains_key(proc.id()) && !alive {
                     self.push_proc_pri(proc, false);
                     on_load(proc);
                 }
@@ -139,6 +147,7 @@ impl Cache {
     #[cfg(test)]
     pub fn uncache(&self, pid: &str) {
         self.procs.remove(pid);
+        self.live.lock().unwrap().remove(pid);
     }
 
     #[cfg(feature = "verif")]
